@@ -132,8 +132,41 @@ def do_replay(check, prop, path, tmpdir):
     return 0
 
 
+def merge_plans(quick, thorough):
+    """the thorough tier explores everything the quick tier explores, plus its own blocks."""
+    by_name, order = {}, []
+    for src in (quick, thorough):
+        for ph in src:
+            if ph['name'] not in by_name:
+                by_name[ph['name']] = {'name': ph['name'], 'cfg': dict(ph.get('cfg', {})), 'shards': [], 'expected_cases': 0,
+                                       '_seen': set()}
+                order.append(ph['name'])
+            tgt = by_name[ph['name']]
+            tgt['cfg'].update(ph.get('cfg', {}))
+            dropped = False
+            for sh in ph['shards']:
+                key = json.dumps(harness.jsonable(sh), sort_keys=True)
+                if key in tgt['_seen']:
+                    dropped = True
+                    continue
+                tgt['_seen'].add(key)
+                tgt['shards'].append(sh)
+            if ph.get('expected_cases') is None or dropped or tgt['expected_cases'] is None:
+                tgt['expected_cases'] = None
+            else:
+                tgt['expected_cases'] += ph['expected_cases']
+    out = []
+    for name in order:
+        ph = by_name[name]
+        ph.pop('_seen')
+        out.append(ph)
+    return out
+
+
 def do_check(check, modname, prop, args, seed, tmpdir, t0):
     phases = check.plan(args.tier, seed)
+    if args.tier == 'thorough':
+        phases = merge_plans(check.plan('quick', seed), phases)
     all_results = []
     phase_info = []
     for ph in phases:
